@@ -100,6 +100,7 @@ class State:
         self.in_function = None     # True/False/None(unknown) for the entry frame
         self.errstate = None
         self.labels = {}
+        self.dirty = set()          # what a failed callee may have left behind (scopes, contexts, loops, code, last)
         self.fused = []
         self.code = []              # emitted instruction stream of this path (ops and summary blobs)
         self.emitted = False
@@ -122,6 +123,7 @@ class State:
         s.facts = dict(self.facts)
         s.emits = list(self.emits)
         s.fused = list(self.fused)
+        s.dirty = set(self.dirty)
         s.code = [dict(c) for c in self.code]
         s.fn_entries = dict(self.fn_entries)
         s.labels = {k: copy.copy(v) for k, v in self.labels.items()}
